@@ -16,8 +16,24 @@
 from warnings import warn
 import unified_planning as up
 from unified_planning.model.expression import ConstantExpression
-from unified_planning.exceptions import UPProblemDefinitionError, UPValueError
+from unified_planning.exceptions import (
+    UPProblemDefinitionError,
+    UPTypeError,
+    UPValueError,
+)
 from typing import Optional, List, Dict, Union, Iterable, Set
+
+
+def _check_default_value(
+    tp: "up.model.types.Type", v_exp: "up.model.fnode.FNode", what: str
+):
+    """Raises if `v_exp` can't be the default initial value of something of type `tp`."""
+    if not v_exp.is_constant():
+        raise UPTypeError(f"The default initial value of {what} is not a constant: {v_exp}")
+    if not tp.is_compatible(v_exp.type):
+        raise UPTypeError(
+            f"The default initial value {v_exp} of {what} has not a compatible type!"
+        )
 
 
 class FluentsSetMixin:
@@ -46,6 +62,7 @@ class FluentsSetMixin:
         self._initial_defaults: Dict["up.model.types.Type", "up.model.fnode.FNode"] = {}
         for k, v in initial_defaults.items():
             (v_exp,) = self.environment.expression_manager.auto_promote(v)
+            _check_default_value(k, v_exp, f"type {k}")
             self._initial_defaults[k] = v_exp
         # The field initial default optionally associates a type to a default value. When a new fluent is
         # created with no explicit default, it will be associated with the initial-default of his type, if any.
@@ -144,11 +161,14 @@ class FluentsSetMixin:
                 raise UPProblemDefinitionError(msg)
             else:
                 warn(msg)
-        self._fluents.append(fluent)
+        v_exp = None
         if not default_initial_value is None:
             (v_exp,) = self.environment.expression_manager.auto_promote(
                 default_initial_value
             )
+            _check_default_value(fluent.type, v_exp, f"fluent {fluent.name}")
+        self._fluents.append(fluent)
+        if v_exp is not None:
             self._fluents_defaults[fluent] = v_exp
         elif fluent.type in self._initial_defaults:
             self._fluents_defaults[fluent] = self._initial_defaults[fluent.type]
